@@ -1,0 +1,45 @@
+//! Additional state structs for the verification harness in /verif (property
+//! C19: the generated builder and stack accessors for *any* struct the macro is
+//! applied to). They have to live in this crate: `#[push_state]` cannot be
+//! applied to a struct with two or more stacks in a downstream crate (the
+//! generated `HasStack<<Stack<T> as StackType>::Type>` impls are rejected as
+//! overlapping there). Compiled only with `--cfg unhindered_ec_unhindered_ec_verif`.
+
+use std::collections::HashMap;
+
+use ordered_float::OrderedFloat;
+
+use crate::{
+    instruction::{PushInstruction, variable_name::VariableName},
+    push_vm::{program::PushProgram, stack::Stack},
+};
+
+/// One non-exec stack, renamed builder methods and a custom input instruction.
+#[derive(Default, Debug, Clone, Eq, PartialEq)]
+#[push_macros::push_state(builder)]
+pub struct OneStackState {
+    #[stack(exec)]
+    pub code: Stack<PushProgram>,
+    #[stack(builder_name = number, instruction_name = PushInstruction::push_int, ignore_doctests)]
+    pub numbers: Stack<i64>,
+    #[input_instructions]
+    pub inputs: HashMap<VariableName, PushInstruction>,
+    #[instruction_step_limit]
+    pub step_limit: usize,
+}
+
+/// Four stacks of four different element types, no input map, no step limit.
+#[derive(Default, Debug, Clone, Eq, PartialEq)]
+#[push_macros::push_state(builder)]
+pub struct FourStackState {
+    #[stack(exec)]
+    pub exec: Stack<PushProgram>,
+    #[stack(ignore_doctests)]
+    pub alpha: Stack<i64>,
+    #[stack(ignore_doctests)]
+    pub beta: Stack<bool>,
+    #[stack(ignore_doctests)]
+    pub gamma: Stack<OrderedFloat<f64>>,
+    #[stack(ignore_doctests)]
+    pub delta: Stack<char>,
+}
